@@ -337,9 +337,12 @@ def conf(sec, f):
         return False
     if value != value.strip() or descr != descr.strip():
         return False
-    if ":" in value:
-        if sec != "Parameter":
+    if ":" in value and sec != "Parameter":
+        # the documented last-colon form (C04_last_colon): the value keeps every colon but the last one of the line, whatever the
+        # blanks around any of them; the description must then be colon-free (checked below)
+        if value[0] == ":" or unit.isdigit():
             return False
+    elif ":" in value:
         for i, c in enumerate(value):
             if c == ":":
                 a = value[i + 1:i + 3]
